@@ -76,9 +76,9 @@ func oracle(c *Case) (interleaved bool, err error) {
 			return false, err
 		}
 		w = bw
-		defer func() {
-			// closing happens in reverse order of the defers above; nothing else to do
-		}()
+		if cl, ok := any(bw).(interface{ Close() error }); ok {
+			defer cl.Close() // releases the temp transaction if Flush was never reached
+		}
 	} else {
 		w = updog.NewIndexWriter(out)
 	}
@@ -170,10 +170,6 @@ func oracle(c *Case) (interleaved bool, err error) {
 		rows[id] = c.row(i)
 	}
 	d := model.NewData(rows)
-	if c.Big {
-		// release the output db before opening it as an index
-		// (the deferred Close calls run later and are idempotent)
-	}
 	cp, err := fix.CopyFile(dir, out)
 	if err != nil {
 		return interleaved, err
